@@ -549,6 +549,42 @@ func C08(tier string) int {
 			}
 		}
 	}
+	// The same batches on an instance that logs at trace level (what is signed must not depend on what is logged).
+	rig.Verbose(true)
+	vr, verr := rig.NewSignerRig(rig.SignerOpts{})
+	if verr != nil {
+		rig.Verbose(false)
+		run.HarnessErr = verr
+		return run.Finish()
+	}
+	verboseCells := 0
+	for _, p := range []int{1, 4} {
+		for _, n := range []int{2, 5, 12, 33} {
+			for _, kind := range []string{"atts", "multisign"} {
+				runtime.GOMAXPROCS(p)
+				its, problem, err := c08Batch(vr, kind, n, false, n == 12)
+				runtime.GOMAXPROCS(old)
+				if err != nil {
+					rig.Verbose(false)
+					run.HarnessErr = err
+					return run.Finish()
+				}
+				verboseCells++
+				rp := map[string]any{"check": "C08", "kind": kind, "n": n, "procs": p, "logging": "trace"}
+				if problem != "" {
+					report(fmt.Sprintf("batch-shape:%s:n=%d:procs=%d:logging=trace", kind, n, p), "logging at trace level: "+problem, rp)
+					continue
+				}
+				for _, pr := range verifyAll(its) {
+					report(fmt.Sprintf("batch:%s:n=%d:procs=%d:logging=trace:%s", kind, n, p, firstWords(pr, 5)), fmt.Sprintf("logging at trace level, GOMAXPROCS=%d: %s", p, pr), rp)
+					break
+				}
+			}
+		}
+	}
+	vr.Close()
+	rig.Verbose(false)
+	cells += verboseCells
 	// Memory shared between the workers of a batch without synchronisation: see race.go.
 	raceReports, raceTotal, raceRan, err := racePass("C08")
 	if err != nil {
